@@ -219,6 +219,16 @@ func effectScan(c *Check, roots []string, readOnlyExt map[string]bool) (bad []st
 				if id, _ := rootOfLHS(site.Fn.Pkg.TypesInfo, u.X); id != nil {
 					if v, ok := site.Fn.Pkg.TypesInfo.Uses[id].(*types.Var); ok && !isPkgLevel(v) && !v.IsField() {
 						okArg = !isParamOrRecv(site.Fn, v)
+						// &p.f of a pointer parameter p of a function that is itself checked here: a part of
+						// what that function's callers handed in (they are then checked for p)
+						if !okArg && inTree[site.Fn.Obj] {
+							if _, isPtr := v.Type().Underlying().(*types.Pointer); isPtr {
+								if pi := paramIndex(site.Fn, v); pi >= 0 {
+									okArg = true
+									ptrWrites = append(ptrWrites, pw{site.Fn, pi})
+								}
+							}
+						}
 					}
 				}
 			}
